@@ -493,19 +493,29 @@ def run_dist(world):
     with net.installed():
         ca, cb = net.connect_pair(None, SideB())
         try:
-            root = ca.root
-            need = world.foreign_mentions()
-            for (side, k) in sorted(world.objs):
-                if (side, k) not in need:
-                    continue
-                if side == "B":
-                    world.proxy[("A", ("B", k))] = root.get(k)
-                else:
-                    root.put(k, world.objs[(side, k)])
+            try:
+                root = ca.root
+                need = world.foreign_mentions()
+                for (side, k) in sorted(world.objs):
+                    if (side, k) not in need:
+                        continue
+                    if side == "B":
+                        world.proxy[("A", ("B", k))] = root.get(k)
+                    else:
+                        root.put(k, world.objs[(side, k)])
+                setup_error = None
+            except Exception as ex:  # noqa  (a connection that cannot even hand objects over)
+                setup_error = ex
             frames0 = len(net.frames)
-            out, raw = show_outcome(world, world.entry)
+            if setup_error is None:
+                out, raw = show_outcome(world, world.entry)
+            else:
+                out, raw = "could-not-hand-objects-over %s" % type(setup_error).__name__, []
             info["frames"] = len(net.frames) - frames0
-            info["usable"] = not ca.closed and ca.root.ping_() == "pong"
+            try:
+                info["usable"] = not ca.closed and ca.root.ping_() == "pong"
+            except Exception:  # noqa
+                info["usable"] = False
         finally:
             world.proxy = {}
             net.shutdown([ca])
